@@ -31,7 +31,7 @@ static Bytes some_music(Rng &r, bool &hostile)
     if(hostile) { int n = r.range(0, 60); static const char *mg[] = {"MThd\0\0\0\6", "RIFF", "MUS\x1A", "FORM\0\0\0\x0eXDIR", "CTMF"}; static const size_t ml[] = {8, 4, 4, 12, 4}; int m = r.below(5); if(r.chance(0.8)) f.insert(f.end(), (const uint8_t *)mg[m], (const uint8_t *)mg[m] + ml[m]); for(int i = 0; i < n; i++) f.push_back(r.byte()); return f; }
     switch(r.below(4))
     {
-    case 0: { SongOpts o; o.max_tracks = 3; o.max_events = 20; Song s = gen_song(r, o); return serialize_song(s); }
+    case 0: { SongOpts o; o.max_tracks = 3; o.max_events = 20; o.devices = r.chance(0.4); Song s = gen_song(r, o); return serialize_song(s); }
     case 1: return gen_mus(r, 20).bytes;
     case 2: return gen_xmi(r, 0, 12).bytes;
     default: { SongOpts o; o.max_tracks = 2; o.max_events = 12; Song s = gen_song(r, o); return wrap_rmi(serialize_song(s), true, Bytes()); }
